@@ -469,3 +469,181 @@ Proof.
       * rewrite <- HE2, rotl_app. cbn [app path_of_rotation]. change (e_on m) with true. cbn iota.
         rewrite Hb. reflexivity.
 Qed.
+
+(* ---------------------------------------------------------------------------------------------- *)
+(* what a path of the specification looks like (independent reading through `trace`)               *)
+
+Lemma trace_app a : forall b, trace (a ++ b) = trace a ++ trace b.
+Proof.
+  induction a as [|x a IH]; intros b; [reflexivity|].
+  destruct x; cbn [app trace]; rewrite IH; reflexivity.
+Qed.
+
+Lemma read_segments_shape o : forall n l b, (length l <= n)%nat -> read_segments o l = Some b ->
+  forallb is_segment b = true /\
+  trace b = map untag l ++ (if ends_off l then [(true, o)] else []).
+Proof.
+  induction n as [|n IH]; intros l b Hl Hb.
+  - destruct l; [|cbn [length] in Hl; lia]. cbn in Hb. inversion Hb. split; reflexivity.
+  - destruct l as [|p r]; [cbn in Hb; inversion Hb; split; reflexivity|]. cbn [length] in Hl.
+    destruct (e_on p) eqn:Ep.
+    + rewrite rs_on in Hb by exact Ep. destruct (read_segments o r) as [b'|] eqn:Hr; [|discriminate].
+      cbn [option_map] in Hb. inversion Hb; subst b. destruct (IH r b' ltac:(lia) Hr) as [H1 H2].
+      split; [cbn [forallb is_segment]; exact H1|].
+      cbn [trace map app]. rewrite H2. unfold untag at 2. rewrite Ep.
+      destruct r; [cbn [ends_off]; rewrite Ep; reflexivity|rewrite ends_off_cons; reflexivity].
+    + destruct r as [|q r'].
+      * rewrite rs_off1 in Hb by exact Ep. inversion Hb; subst b. split; [reflexivity|].
+        cbn [trace map app ends_off]. rewrite Ep. unfold untag. rewrite Ep. reflexivity.
+      * rewrite rs_off2 in Hb by exact Ep. destruct (e_on q) eqn:Eq; [|discriminate].
+        destruct (read_segments o r') as [b'|] eqn:Hr; [|discriminate].
+        cbn [option_map] in Hb. inversion Hb; subst b. cbn [length] in Hl.
+        destruct (IH r' b' ltac:(lia) Hr) as [H1 H2].
+        split; [cbn [forallb is_segment]; exact H1|].
+        cbn [trace map app]. rewrite H2. unfold untag at 2 3. rewrite Ep, Eq.
+        rewrite ends_off_cons.
+        destruct r'; [cbn [ends_off]; rewrite Eq; reflexivity|rewrite ends_off_cons; reflexivity].
+Qed.
+
+Theorem path_shape R cmds : path_of_rotation R = Some cmds ->
+  exists e R' b, R = e :: R' /\ e_on e = true /\
+    cmds = Move (e_pos e) :: b ++ [Close] /\ forallb is_segment b = true /\
+    trace cmds = map untag R ++ (if ends_off R' then [(true, e_pos e)] else []).
+Proof.
+  intros H. destruct R as [|e R']; [discriminate|]. cbn [path_of_rotation] in H.
+  destruct (e_on e) eqn:Ee; [|discriminate].
+  destruct (read_segments (e_pos e) R') as [b|] eqn:Hb; [|discriminate].
+  cbn [option_map] in H. inversion H; subst cmds.
+  destruct (read_segments_shape _ _ _ _ (le_n _) Hb) as [H1 H2].
+  exists e, R', b. repeat split; try assumption.
+  cbn [trace map]. rewrite trace_app, H2. cbn [trace]. rewrite app_nil_r.
+  unfold untag at 2. rewrite Ee. reflexivity.
+Qed.
+
+(* ---------------------------------------------------------------------------------------------- *)
+(* the expansion, characterised without recursion: every point followed by the implied point of the
+   cyclic pair it opens                                                                            *)
+
+Definition cyclic_pairs (sp : list spoint) : list (spoint * spoint) :=
+  combine sp (tl sp ++ firstn 1 sp).
+
+Lemma expand_from_pairs f : forall l,
+  expand_from f l = flat_map (fun pq => e_orig (fst pq) :: implied_between (fst pq) (snd pq))
+                             (combine l (tl l ++ [f])).
+Proof.
+  induction l as [|p r IH]; [reflexivity|].
+  cbn [expand_from tl]. destruct r as [|q r'].
+  - cbn [app combine flat_map expand_from fst snd]. rewrite !app_nil_r. reflexivity.
+  - change ((q :: r') ++ [f]) with (q :: (r' ++ [f])).
+    cbn [combine flat_map fst snd]. cbn [tl] in IH. rewrite IH. reflexivity.
+Qed.
+
+Theorem expand_pairs sp :
+  expand sp = flat_map (fun pq => e_orig (fst pq) :: implied_between (fst pq) (snd pq)) (cyclic_pairs sp).
+Proof.
+  destruct sp as [|p r]; [reflexivity|]. unfold expand, cyclic_pairs. cbn [firstn]. apply expand_from_pairs.
+Qed.
+
+Lemma implied_between_spec p q :
+  implied_between p q =
+  if negb (fst p) && negb (fst q)
+  then [{| e_implied := true; e_on := true;
+           e_pos := (fst (snd p) + fst (snd q), snd (snd p) + snd (snd q)) |}]
+  else [].
+Proof. reflexivity. Qed.
+
+(* original points: once each, in order *)
+Lemma expand_from_originals f : forall l,
+  filter (fun e => negb (e_implied e)) (expand_from f l) = map e_orig l.
+Proof.
+  induction l as [|p r IH]; [reflexivity|].
+  cbn [expand_from map]. cbn [filter e_orig e_implied negb]. f_equal.
+  rewrite filter_app, IH. unfold implied_between.
+  destruct (_ && _); reflexivity.
+Qed.
+
+Lemma expand_originals sp : filter (fun e => negb (e_implied e)) (expand sp) = map e_orig sp.
+Proof. destruct sp; [reflexivity|apply expand_from_originals]. Qed.
+
+Lemma filter_rotl {A} (f : A -> bool) k (l : list A) :
+  filter f (rotl k l) = rotl (length (filter f (firstn k l))) (filter f l).
+Proof.
+  unfold rotl at 1. rewrite filter_app.
+  assert (H : filter f l = filter f (firstn k l) ++ filter f (skipn k l))
+    by (rewrite <- filter_app, firstn_skipn; reflexivity).
+  rewrite H. rewrite rotl_app. reflexivity.
+Qed.
+
+Theorem rotation_originals sp k : exists k',
+  filter (fun e => negb (e_implied e)) (rotl k (expand sp)) = rotl k' (map e_orig sp).
+Proof. eexists. rewrite filter_rotl, expand_originals. reflexivity. Qed.
+
+(* ---------------------------------------------------------------------------------------------- *)
+(* all contours of a simple glyph                                                                  *)
+
+Definition is_path_of (c : list point) (p : list pcmd) : Prop :=
+  exists k, (k < length (expand (map to_spoint c)))%nat /\
+            path_of_rotation (rotl k (expand (map to_spoint c))) = Some p.
+
+Theorem simple_cmds_spec : forall cs, exists paths,
+  simple_cmds cs = Ok (concat paths) /\
+  Forall2 is_path_of (filter (fun c => negb (len c =? 0)) cs) paths.
+Proof.
+  induction cs as [|c r [paths [H1 H2]]].
+  - exists []. split; [reflexivity|constructor].
+  - cbn [simple_cmds filter]. destruct (len c =? 0) eqn:E.
+    + cbn [bind negb]. rewrite H1. cbn [bind app]. exists paths. split; [reflexivity|exact H2].
+    + assert (Hne : c <> []) by (intros ->; discriminate).
+      destruct (contour_cmds_spec c Hne) as [cmds [k [Hc [Hk Hp]]]].
+      rewrite Hc, H1. cbn [bind negb]. exists (cmds :: paths). split; [reflexivity|].
+      constructor; [exists k; split; assumption|exact H2].
+Qed.
+
+(* contours() partitions the coordinate array at well-formed end points *)
+Fixpoint ends_ok (start : Z) (ends : list Z) (n : Z) : bool :=
+  match ends with
+  | [] => true
+  | e :: r => (start <=? e) && (e <? n) && ends_ok (e + 1) r n
+  end.
+
+Fixpoint next_start (start : Z) (ends : list Z) : Z :=
+  match ends with [] => start | e :: r => next_start (e + 1) r end.
+
+Lemma next_start_ge n : forall ends start, ends_ok start ends n = true -> start <= next_start start ends.
+Proof.
+  induction ends as [|x r IH]; intros s H; [cbn; lia|].
+  cbn [ends_ok] in H. apply andb_true_iff in H. destruct H as [H1 H2].
+  apply andb_true_iff in H1. specialize (IH (x + 1) H2). cbn [next_start]. lia.
+Qed.
+
+Lemma contours_partition {A} (coords : list A) : forall ends start,
+  0 <= start -> ends_ok start ends (len coords) = true ->
+  concat (contours start ends coords) = take (next_start start ends - start) (drop start coords) /\
+  Forall (fun c => c <> []) (contours start ends coords) /\
+  length (contours start ends coords) = length ends.
+Proof.
+  induction ends as [|e r IH]; intros start Hs Hok.
+  - cbn [contours concat next_start]. rewrite Z.sub_diag. repeat split; constructor.
+  - cbn [ends_ok] in Hok. apply andb_true_iff in Hok. destruct Hok as [Hok Hr].
+    apply andb_true_iff in Hok. destruct Hok as [H1 H2].
+    cbn [contours]. unfold get_incl.
+    destruct ((e + 1 <? start) || (len coords <? e + 1)) eqn:E; [lia|].
+    destruct (IH (e + 1) ltac:(lia) Hr) as [I1 [I2 I3]].
+    cbn [concat length]. repeat split.
+    + rewrite I1.
+      cbn [next_start].
+      pose proof (next_start_ge _ _ _ Hr) as Hge.
+      replace (drop (e + 1) coords) with (drop (e + 1 - start) (drop start coords))
+        by (rewrite drop_drop by lia; f_equal; lia).
+      set (d := drop start coords).
+      replace (next_start (e + 1) r - start) with ((e + 1 - start) + (next_start (e + 1) r - (e + 1))) by lia.
+      unfold take, drop. rewrite Z2Nat.inj_add by lia.
+      set (a := Z.to_nat (e + 1 - start)). set (b := Z.to_nat (next_start (e + 1) r - (e + 1))).
+      rewrite firstn_skipn_comm.
+      transitivity (firstn a (firstn (a + b) d) ++ skipn a (firstn (a + b) d)); [|apply firstn_skipn].
+      f_equal. rewrite firstn_firstn. f_equal. lia.
+    + constructor; [|exact I2].
+      intros Hnil. assert (Hl : len (take (e + 1 - start) (drop start coords)) = 0) by (rewrite Hnil; reflexivity).
+      rewrite len_take in Hl; [lia|]. rewrite len_drop by lia. lia.
+    + rewrite I3. reflexivity.
+Qed.
